@@ -19,6 +19,7 @@ import contextlib
 import logging
 import os
 import sys
+from io import BytesIO
 from pathlib import Path
 from typing import IO, Optional, Type, cast
 
@@ -96,6 +97,32 @@ def own_reuse_info(path: StrPath) -> ReuseInfo:
                     decoded_text_from_binary(fp, size=limit)
                 )
     return ReuseInfo()
+
+
+def _linter_reads_back(
+    text: str, reuse_info: ReuseInfo, merge_copyrights: bool
+) -> bool:
+    """Would the linter find the requested licences and notices in *text*, the
+    new content of a file? It scans the first few kilobytes only (everything
+    if there is a snippet), skips ignore blocks, and reads nothing from a text
+    with an expression it cannot parse.
+    """
+    data = text.encode("utf-8")
+    with BytesIO(data) as fp:
+        limit = None if _contains_snippet(fp) else _HEADER_BYTES
+        fp.seek(0)
+        try:
+            found = extract_reuse_info(decoded_text_from_binary(fp, size=limit))
+        except (ExpressionError, ParseError):
+            return False
+    if not set(map(str, reuse_info.spdx_expressions)) <= set(
+        map(str, found.spdx_expressions)
+    ):
+        return False
+    # Merged notices are rewritten; the header they are part of was verified.
+    return merge_copyrights or (
+        reuse_info.copyright_lines <= found.copyright_lines
+    )
 
 
 def add_header_to_file(
@@ -232,6 +259,17 @@ def add_header_to_file(
                 _(
                     "Error: the header for '{path}' cannot be encoded as"
                     " UTF-8. Did not write new header."
+                ).format(path=path)
+            )
+            out.write("\n")
+            return 1
+        if not _linter_reads_back(output, reuse_info, merge_copyrights):
+            out.write(
+                _(
+                    "Error: the linter would not read the header of '{path}'"
+                    " back: it would lie behind the part of the file that is"
+                    " scanned, inside an ignore block, or next to an expression"
+                    " that cannot be parsed. Did not write new header."
                 ).format(path=path)
             )
             out.write("\n")
